@@ -361,10 +361,14 @@ impl PhysicalOperator for SpillableHashJoinExec {
 
         match decision {
             BuildDecision::InMemory(hash_join) => {
+                #[cfg(feature = "verif-hooks")]
+                crate::verif_hooks::mark("join.in_memory");
                 // Delegate directly — HashJoinExec has its own OnceCell for the hash table
                 hash_join.execute(partition).await
             }
             BuildDecision::Spill { build_batches } => {
+                #[cfg(feature = "verif-hooks")]
+                crate::verif_hooks::mark("join.spill");
                 // Spill path runs everything through partition 0
                 if partition > 0 {
                     return Ok(Box::pin(stream::empty()));
@@ -1061,6 +1065,12 @@ impl PhysicalOperator for SpillableHashAggregateExec {
         // collect-then-decide path below.
         if self.fused_streaming_eligible() {
             if let Some(result) = self.execute_fused_streaming().await? {
+                #[cfg(feature = "verif-hooks")]
+                crate::verif_hooks::mark(if self.disjoint_hint {
+                    "agg.fused_disjoint"
+                } else {
+                    "agg.fused"
+                });
                 return Ok(result);
             }
         }
@@ -1074,6 +1084,8 @@ impl PhysicalOperator for SpillableHashAggregateExec {
 
         if !exceeded {
             // Data fits in memory — delegate to the proven HashAggregateExec
+            #[cfg(feature = "verif-hooks")]
+            crate::verif_hooks::mark("agg.hash_in_memory");
             let hash_aggs: Vec<crate::physical::operators::hash_agg::AggregateExpr> = self
                 .aggregates
                 .iter()
@@ -1109,6 +1121,8 @@ impl PhysicalOperator for SpillableHashAggregateExec {
         }
 
         // Data exceeds memory — use spillable aggregation path
+        #[cfg(feature = "verif-hooks")]
+        crate::verif_hooks::mark("agg.spill");
         self.config.ensure_spill_dir()?;
 
         let spill_id = SPILL_COUNTER.fetch_add(1, Ordering::Relaxed);
@@ -1412,6 +1426,8 @@ impl PhysicalOperator for ExternalSortExec {
 
         if !exceeded {
             // Data fits in memory — use the regular SortExec path for correctness
+            #[cfg(feature = "verif-hooks")]
+            crate::verif_hooks::mark("sort.in_memory");
             // Create a temporary MemoryTableExec with our already-collected data
             let mem = crate::physical::operators::MemoryTableExec::new(
                 "sort_input",
@@ -1432,6 +1448,8 @@ impl PhysicalOperator for ExternalSortExec {
         }
 
         // Data exceeds memory — use external sort with spilling
+        #[cfg(feature = "verif-hooks")]
+        crate::verif_hooks::mark("sort.spill");
         self.config.ensure_spill_dir()?;
 
         let spill_id = SPILL_COUNTER.fetch_add(1, Ordering::Relaxed);
@@ -1575,6 +1593,8 @@ impl ExternalSortExec {
 
         // If we have too many runs, merge in multiple passes
         if runs.len() > MAX_MERGE_FANIN {
+            #[cfg(feature = "verif-hooks")]
+            crate::verif_hooks::mark("sort.multi_pass_merge");
             return self.multi_pass_merge(runs, MAX_MERGE_FANIN);
         }
 
